@@ -85,19 +85,19 @@ def path_conditions(fn_node, stmt):
             for prev in block[:i]:
                 if isinstance(prev, ast.If) and not prev.orelse and _always_leaves(prev.body):
                     t, pol = _strip_not(prev.test)
-                    cur.add((norm(t), not pol))
+                    cur.add((norm(t, 2000), not pol))
                 elif isinstance(prev, ast.If) and prev.orelse and _always_leaves(prev.orelse) \
                         and not _always_leaves(prev.body):
                     t, pol = _strip_not(prev.test)
-                    cur.add((norm(t), pol))
+                    cur.add((norm(t, 2000), pol))
             if st is stmt:
                 out.update(cur)
                 return True
             if isinstance(st, ast.If):
                 t, pol = _strip_not(st.test)
-                if visit(st.body, cur | {(norm(t), pol)}):
+                if visit(st.body, cur | {(norm(t, 2000), pol)}):
                     return True
-                if visit(st.orelse, cur | {(norm(t), not pol)}):
+                if visit(st.orelse, cur | {(norm(t, 2000), not pol)}):
                     return True
             elif isinstance(st, (ast.For, ast.While, ast.With, ast.Try)):
                 for fld in ("body", "orelse", "finalbody"):
